@@ -292,6 +292,10 @@ func (gi *gitlabImporter) ensureIssueEvent(repo *cache.RepoCache, b *cache.BugCa
 		gi.out <- core.NewImportTitleEdition(b.Id(), op.Id())
 
 	case EventAddLabel:
+		if errResolve == nil {
+			return nil
+		}
+
 		_, err = b.ForceChangeLabelsRaw(
 			author,
 			event.CreatedAt().Unix(),
@@ -304,6 +308,10 @@ func (gi *gitlabImporter) ensureIssueEvent(repo *cache.RepoCache, b *cache.BugCa
 		return err
 
 	case EventRemoveLabel:
+		if errResolve == nil {
+			return nil
+		}
+
 		_, err = b.ForceChangeLabelsRaw(
 			author,
 			event.CreatedAt().Unix(),
